@@ -163,4 +163,18 @@ AttrType(a) ==
            [] a.code = 254 -> IF a.len % 2 = 0 THEN "LIST" ELSE "reject"
            [] a.code = 255 -> "either"
            [] OTHER -> "reject"
+
+\* ---- free-format objects (group 70, qualifier 5B): <count = 1> <length, 2 bytes> <object>.  A case is
+\* [v, n, delta, follow, trunc, fnc]: the object of variation v with n bytes of variable data (strings, file data), the
+\* declared length = true size + delta (the declared number of bytes is present: padding after the object when
+\* delta > 0, the object cut short when delta < 0), followed by a second, exact, free-format header when follow = 1,
+\* and the last byte of the fragment missing when trunc = 1.
+\* v2, v3, v7 carry their own string lengths, so that the object's size is implied by its content; in v4, v5, v6, v8
+\* the variable part extends to the end of the declared length.
+FfFixed(v) == CASE v = 2 -> 12 [] v = 3 -> 26 [] v = 4 -> 13 [] v = 5 -> 8 [] v = 6 -> 9 [] v = 7 -> 20 [] OTHER -> 0
+FfSelfSized(v) == v \in {2, 3, 7}
+FfVerdict(c) ==
+    IF c.trunc = 1 THEN "reject"
+    ELSE IF FfSelfSized(c.v) THEN (IF c.delta = 0 THEN "accept" ELSE "reject")
+    ELSE IF FfFixed(c.v) + c.n + c.delta >= FfFixed(c.v) THEN "accept" ELSE "reject"
 =============================================================================
